@@ -474,6 +474,22 @@ class BuiltinMixin:
             return [(st, dict_keys_list(v))]
         if isinstance(v, VValues):
             return [(st, self.values_list(v.d, st))]
+        if isinstance(v, VZip) and all(isinstance(x, (VList, VValues)) for x in v.parts):
+            # list(zip(xs, ys)): a fresh list of tuples, as long as the shortest part, z[i] == (xs[i], ys[i])
+            parts = [self.values_list(x.d, st) if isinstance(x, VValues) else x for x in v.parts]
+            ts = TTup([Ref if isinstance(x.sort.elem, TRefS) else x.sort.elem for x in parts])
+            ls = TList(ts)
+            r = fresh(ls, "zipped")
+            i = z3.FreshConst(z3.IntSort(), "zi")
+            n = parts[0].sort.len(parts[0].t)
+            for x in parts[1:]:
+                n = z3.If(x.sort.len(x.t) < n, x.sort.len(x.t), n)
+            st = st.copy()
+            st.pc.append(ls.len(r.t) == n)
+            elem = VTuple([list_get(x, i) for x in parts])
+            st.pc.append(z3.ForAll([i], z3.Implies(z3.And(i >= 0, i < n), z3.Select(ls.arr(r.t), i) == term_of(coerce(elem, ts), ts))))
+            st.pc.append(canonical_list(r.t, ls))
+            return [(st, r)]
         raise Unsupported("list() of %r" % (v,))
 
     def bi_tuple(self, args, kw, st, cx, node):
@@ -619,10 +635,14 @@ class BuiltinMixin:
 
     def bi_isinst(self, args, kw, st, cx, node):
         "isinst(obj, 'qualified.Class')"
+        if isinstance(args[0], VNone):
+            return [(st, VBool(False))]
         return [(st, VBool(self.type_test(args[0], self.repo.canonical(args[1].conc()), st)))]
 
     def bi_cls_is(self, args, kw, st, cx, node):
         "cls_is(obj, 'qualified.Class'): exact class"
+        if isinstance(args[0], VNone):
+            return [(st, VBool(False))]
         return [(st, VBool(z3.And(args[0].t != 0, self.cls_of(args[0]) == self.class_id(args[1].conc()))))]
 
     def bi_repo(self, args, kw, st, cx, node):
@@ -670,6 +690,8 @@ class BuiltinMixin:
 
     def bi_result_is_new(self, args, kw, st, cx, node):
         "result_is_new(obj): allocated during this call"
+        if isinstance(args[0], VNone):
+            return [(st, VBool(False))]
         return [(st, VBool(z3.And(args[0].t >= cx.pre.top, args[0].t < st.top)))]
 
     def bi_concat(self, args, kw, st, cx, node):
@@ -848,6 +870,8 @@ class BuiltinMixin:
 
     def bi_is_new(self, args, kw, st, cx, node):
         "is_new(obj): allocated after the pre-state"
+        if isinstance(args[0], VNone):
+            return [(st, VBool(False))]
         return [(st, VBool(z3.And(args[0].t >= cx.pre.top, args[0].t < st.top)))]
 
     def bi_unchanged(self, args, kw, st, cx, node):
